@@ -2,7 +2,6 @@
     Statements only; proofs are in Nav.v. *)
 From Coq Require Import List NArith ZArith Bool.
 From Mast Require Import Prim Key Tree KeyOrder Codec Store Diff World Erase Build Spec Canon Level Inv Nav Hist Cursor Reload WorldInv CursorHist.
-From Mast Require Import ReloadB.
 Import ListNotations.
 
 Section GENERIC.
